@@ -189,11 +189,37 @@ def func_ref_name(v):
 def reject_guards(func):
     """Yield (guard_expr, negated, node): the condition under which the function refuses its input.
     For `if G: raise` negated=False (rejects when G); for `assert C` negated=True (rejects when not C)."""
+    helpers = _assert_like_helpers(func)
     for n in walk_no_nested(func):
         if isinstance(n, ast.If) and n.body and isinstance(n.body[0], ast.Raise):
             yield n.test, False, n
         elif isinstance(n, ast.Assert):
             yield n.test, True, n
+        elif isinstance(n, ast.Expr) and isinstance(n.value, ast.Call) and n.value.args:
+            # a call of a helper that raises unless its (first) argument holds is an assertion of that argument
+            f = n.value.func
+            name = f.attr if isinstance(f, ast.Attribute) and isinstance(f.value, ast.Name) and f.value.id in ('self', 'cls') else (f.id if isinstance(f, ast.Name) else None)
+            if name in helpers:
+                yield n.value.args[0], True, n
+
+
+def _assert_like_helpers(func):
+    """names of functions of the same class / module whose body is `if not <first parameter>: raise ...`"""
+    out = set()
+    scope = getattr(func, '_parent', None)
+    cands = []
+    while scope is not None:
+        if isinstance(scope, (ast.ClassDef, ast.Module)):
+            cands += [g for g in scope.body if isinstance(g, ast.FunctionDef)]
+        scope = getattr(scope, '_parent', None)
+    for g in cands:
+        ps = [a.arg for a in g.args.args if a.arg not in ('self', 'cls')]
+        body = [s for s in g.body if not isinstance(s, ast.Pass)]
+        if ps and len(body) == 1 and isinstance(body[0], ast.If) and not body[0].orelse and body[0].body and isinstance(body[0].body[0], ast.Raise):
+            t = body[0].test
+            if isinstance(t, ast.UnaryOp) and isinstance(t.op, ast.Not) and isinstance(t.operand, ast.Name) and t.operand.id == ps[0]:
+                out.add(g.name)
+    return out
 
 
 def linear_guard(ix, modname, test, negated, env_names=None):
